@@ -17,6 +17,9 @@ package muxrun
 //	q<L>% !q<L>% the call is marked: when ITS releaseStream runs in the caller's goroutine it stops in the
 //	             StreamFinished callback - streams.Clear has run, the id is free, releaseStream has not returned -
 //	             until f<i>. Steps that wait for call i to return end when it is parked there.
+//	^q<L>[%]     the call stops in the StreamContext callback: GetStream has reserved its id, addCall has not run; s<i>
+//	             lets it go on (addCall - refused when the connection has been closed meanwhile, the id then stays
+//	             reserved -, then the write slot as for q)
 //	b  b%        Conn.exec of a request whose buildFrame fails (registered, nothing written, id released)
 //	d<i>[.<n>] A<i>:V A<i>:E<code>   the peer answers user call i (own.go)
 //	w<i>         the held Write of call i returns; every call that waited for the write slot writes now; ends when the
@@ -74,6 +77,9 @@ type schedCall struct {
 	buildErr  bool
 	err       error
 	// schedule points
+	gated   atomic.Bool // stop in StreamContext (id reserved, not registered) until s<i>
+	atGate1 atomic.Bool
+	gate1   chan struct{}
 	park    atomic.Bool
 	parked  atomic.Bool
 	started atomic.Bool
@@ -91,11 +97,21 @@ func (c *schedCall) StreamFinished(gocql.ObservedStream) {
 	}
 }
 func (c *schedCall) open() { c.park.Store(false); c.gateMu.Do(func() { close(c.gate) }) }
+func (c *schedCall) ungate() {
+	if c.gated.Swap(false) {
+		close(c.gate1)
+	}
+}
 
 type schedObs struct{}
 
 func (schedObs) StreamContext(ctx context.Context) gocql.StreamObserverContext {
 	if c, ok := ctx.Value(schedKey{}).(*schedCall); ok {
+		if c.gated.Load() {
+			c.atGate1.Store(true)
+			<-c.gate1
+			c.atGate1.Store(false)
+		}
 		return c
 	}
 	return nil
@@ -161,6 +177,7 @@ func RunSched(line string) (ans string) {
 	defer func() {
 		for _, c := range calls {
 			c.open()
+			c.ungate()
 		}
 		for _, cn := range conns {
 			cn.tr.releaseWrite()
@@ -279,8 +296,12 @@ func RunSched(line string) (ans string) {
 	}
 	for _, st0 := range w[3:] {
 		st := st0
-		held, park := false, false
-		if st[0] == '!' {
+		held, park, gate := false, false, false
+		if st[0] == '^' {
+			gate = true
+			st = st[1:]
+		}
+		if st != "" && st[0] == '!' {
 			held = true
 			st = st[1:]
 		}
@@ -291,7 +312,7 @@ func RunSched(line string) (ans string) {
 		if st == "" {
 			return "bad-op"
 		}
-		plain := !held && !park
+		plain := !held && !park && !gate
 		cn := conns[cc]
 		switch st[0] {
 		case 'q', 'b':
@@ -302,15 +323,19 @@ func RunSched(line string) (ans string) {
 				if err != nil || L < 0 || L > 1<<20 {
 					return "bad-op"
 				}
-			} else if len(st) != 1 || held {
+			} else if len(st) != 1 || held || gate {
+				return "bad-op"
+			}
+			if gate && held {
 				return "bad-op"
 			}
 			busy := heldOn(cc)
 			if cn.zed || cn.cur >= 0 || (held && busy) || len(calls) >= 40 {
 				return "bad-op"
 			}
-			c := &schedCall{idx: len(calls) + 1, typ: st[0], conn: cc, L: L, done: make(chan struct{}), held: held, gate: make(chan struct{})}
+			c := &schedCall{idx: len(calls) + 1, typ: st[0], conn: cc, L: L, done: make(chan struct{}), held: held, gate: make(chan struct{}), gate1: make(chan struct{})}
 			c.park.Store(park)
+			c.gated.Store(gate)
 			ctx, cancel := context.WithCancel(context.WithValue(context.Background(), schedKey{}, c))
 			c.cancel = cancel
 			calls = append(calls, c)
@@ -324,6 +349,13 @@ func RunSched(line string) (ans string) {
 				cn.tr.holdNext(func(p []byte) bool { return bytes.Contains(p, pat) })
 			}
 			go func() { defer guard(c); c.res = cn.conn.Exec(ctx, fmt.Sprintf("J%d.", c.idx)) }()
+			if gate {
+				waitFor(func() bool { return c.atGate1.Load() || isDone(c) }, fmt.Sprintf("call %d never got as far as StreamContext", c.idx))
+				if isDone(c) {
+					return fmt.Sprintf("call %d returned before it had reserved an id:%v", c.idx, c.res.Err)
+				}
+				continue
+			}
 			if busy {
 				c.queued = true
 				waitFor(func() bool { return c.started.Load() || isDone(c) }, fmt.Sprintf("call %d never got as far as StreamStarted", c.idx))
@@ -338,6 +370,33 @@ func RunSched(line string) (ans string) {
 			}
 			if held {
 				waitFor(func() bool { return cn.tr.holding() || cn.tr.isClosed() }, "the Write of the held request never started")
+			}
+		case 's':
+			i, err := strconv.Atoi(st[1:])
+			if err != nil || i < 1 || i > len(calls) || !plain {
+				return "bad-op"
+			}
+			c := calls[i-1]
+			if !c.gated.Load() {
+				continue
+			}
+			tn := conns[c.conn]
+			busy := heldOn(c.conn)
+			c.ungate()
+			switch {
+			case tn.zed:
+				waitFor(func() bool { return isDone(c) }, fmt.Sprintf("call %d did not return (its connection was closed before it was registered)", i))
+			case busy:
+				c.queued = true
+				waitFor(func() bool { return c.started.Load() || isDone(c) }, fmt.Sprintf("call %d never got as far as StreamStarted", i))
+				if isDone(c) {
+					return fmt.Sprintf("call %d returned instead of waiting for the write slot:%v", i, c.res.Err)
+				}
+			default:
+				waitFor(func() bool { return noteWritten(c) || isDone(c) }, fmt.Sprintf("request of call %d never written", i))
+				if !c.written {
+					return fmt.Sprintf("call %d returned without writing its request:%v", i, c.res.Err)
+				}
 			}
 		case '@':
 			k, err := strconv.Atoi(st[1:])
@@ -442,7 +501,7 @@ func RunSched(line string) (ans string) {
 				// closeWithError has been waiting for these calls: each is handed the error as soon as it gets to its select
 				for _, q := range calls {
 					q := q
-					if q.conn != c.conn || q.parked.Load() {
+					if q.conn != c.conn || q.parked.Load() || q.gated.Load() {
 						continue
 					}
 					waitFor(func() bool { return isDone(q) }, fmt.Sprintf("call %d did not return on a closing connection after the held Write returned", q.idx))
@@ -460,7 +519,7 @@ func RunSched(line string) (ans string) {
 				return "bad-op"
 			}
 			c := calls[i-1]
-			if c.typ != 'q' || c.held || conns[c.conn].cur == i-1 {
+			if c.typ != 'q' || c.held || c.gated.Load() || conns[c.conn].cur == i-1 {
 				return "bad-op"
 			}
 			if !c.queued {
@@ -544,7 +603,7 @@ func RunSched(line string) (ans string) {
 			// write slot keeps closeWithError waiting
 			// (in an order of its own: until the held Write returns nothing can be said about the others)
 			for _, c := range calls {
-				if c.conn == cc && !blocking && !c.parked.Load() {
+				if c.conn == cc && !blocking && !c.parked.Load() && !c.gated.Load() {
 					c := c
 					waitFor(func() bool { return isDone(c) }, fmt.Sprintf("call %d did not return after the connection was closed", c.idx))
 				}
@@ -629,7 +688,7 @@ func GenSched(r *vh.Rng) (line, class string) {
 	type cs struct {
 		typ                                                          byte
 		conn, L, sent                                                int
-		held, queued, park, parked, answered, gone, done, written bool
+		held, queued, park, parked, answered, gone, done, written, gated bool
 	}
 	type cn struct {
 		zed  bool
@@ -684,9 +743,15 @@ func GenSched(r *vh.Rng) (line, class string) {
 			c.park = true
 			s += "%"
 		}
+		if force == 0 && c.typ == 'q' && !c.held && r.Intn(7) == 0 {
+			c.gated = true
+			s = "^" + s
+			feats["stopped-before-registration"] = true
+		}
 		calls = append(calls, c)
 		steps = append(steps, s)
 		switch {
+		case c.gated:
 		case c.typ == 'b':
 			release(c)
 		case k.held >= 0:
@@ -756,6 +821,20 @@ func GenSched(r *vh.Rng) (line, class string) {
 			release(c)
 		}
 	}
+	ungate := func(i int) {
+		c := calls[i]
+		add("s%d", i+1)
+		c.gated = false
+		switch k := conns[c.conn]; {
+		case k.zed:
+			c.done = true
+			feats["registration-after-close"] = true
+		case k.held >= 0:
+			c.queued = true
+		default:
+			c.written = true
+		}
+	}
 	n := 3 + r.Intn(8)
 	switch f := r.Intn(10); {
 	case f < 3:
@@ -811,8 +890,11 @@ func GenSched(r *vh.Rng) (line, class string) {
 	}
 	for it := 0; it < 70; it++ {
 		k := conns[cc]
-		var answerable, cancellable, parked, queued []int
+		var answerable, cancellable, parked, queued, gated []int
 		for i, c := range calls {
+			if c.gated {
+				gated = append(gated, i)
+			}
 			t := conns[c.conn]
 			if c.typ == 'q' && c.written && !t.zed && !c.answered && t.cur < 0 && (t.held < 0 || t.held == i) {
 				answerable = append(answerable, i)
@@ -833,7 +915,7 @@ func GenSched(r *vh.Rng) (line, class string) {
 				open++
 			}
 		}
-		if len(calls) >= n && open == 0 && len(parked) == 0 && conns[0].held < 0 && conns[1].held < 0 && conns[0].cur < 0 && conns[1].cur < 0 {
+		if len(calls) >= n && open == 0 && len(parked) == 0 && len(gated) == 0 && conns[0].held < 0 && conns[1].held < 0 && conns[0].cur < 0 && conns[1].cur < 0 {
 			break
 		}
 		// a partial frame under way on some connection: mostly go on with it
@@ -850,6 +932,10 @@ func GenSched(r *vh.Rng) (line, class string) {
 			if c.conn == cc && c.held && c.sent == total(c) {
 				quietK = false // (its whole answer is in the receive loop's hands)
 			}
+		}
+		if len(gated) > 0 && r.Intn(6) == 0 {
+			ungate(gated[r.Intn(len(gated))])
+			continue
 		}
 		switch p := r.Intn(100); {
 		case p < 8:
@@ -919,7 +1005,7 @@ func GenSched(r *vh.Rng) (line, class string) {
 			for _, c := range calls {
 				if c.conn == cc {
 					c.park = false
-					if c.typ == 'q' && !c.held && !c.queued && !c.parked {
+					if c.typ == 'q' && !c.held && !c.queued && !c.parked && !c.gated {
 						c.done = true
 					}
 				}
@@ -932,6 +1018,11 @@ func GenSched(r *vh.Rng) (line, class string) {
 			}
 		case p >= 96:
 			add("a")
+		}
+	}
+	for i, c := range calls {
+		if c.gated {
+			ungate(i)
 		}
 	}
 	for k := range conns {
@@ -952,7 +1043,7 @@ func GenSched(r *vh.Rng) (line, class string) {
 	add("@2")
 	add("a")
 	class = "ds"
-	for _, f := range []string{"early-exit-while-closing", "close-while-inside-exec", "parked-in-release", "early-exit", "waits-for-write-slot", "answer-before-write-returned", "build-error"} {
+	for _, f := range []string{"registration-after-close", "early-exit-while-closing", "close-while-inside-exec", "parked-in-release", "stopped-before-registration", "early-exit", "waits-for-write-slot", "answer-before-write-returned", "build-error"} {
 		if feats[f] {
 			class += "/" + f
 			break
